@@ -205,7 +205,6 @@ package bmtree
 //@ func Decode returns (rst)
 //@   requires 1 <= bitmapSize && len(bm) < 1<<31
 //@   useret forall k int :: decSet_def(bitmapSize, bm, rst[k])
-//@   instdepthret 2
 //@   ensures forall k int :: 0 <= k && k < len(rst) ==> stored(bitmapSize, rst[k]) && int(preIdx(bitmapSize, rst[k]) >> 6) < len(bm) && (bm[int(preIdx(bitmapSize, rst[k]) >> 6)] >> uint64(preIdx(bitmapSize, rst[k]) & 63)) & 1 == 1
 //@   ensures forall k int :: 0 <= k && k < len(rst) - 1 ==> rst[k] < rst[k+1]
 // completeness (no gap): every node of a stored level whose bit (at its pre-order index) is set is returned
